@@ -9,14 +9,14 @@ STORE_NOTE = ("real nostr_relay code from /repo's working tree; SQLite for real 
 CHECKS = {
     "C09": dict(
         level="model_checking", design_ref="DESIGN.md section 4 C09, section 2.7",
-        technique="explicit-state BFS over the real storage (state = store dump) with frame-condition oracle",
+        technique="explicit-state BFS over the real storage (state = store dump) with frame-condition oracle + exhaustive one-process histories (all arrival orders of the versions of an address) + deviation-bounded schedule exploration of two connections at once",
         text="Every store state reachable by <= depth submissions over two collision-rich universes of replaceable events is enumerated on "
              "both backends through the real websocket EVENT path; each transition is judged by a frame condition relating pre-state, event "
              "and post-state (older versions gone, nothing else removed, newest of every address kept). Exhaustive within the universes and depth.",
         note=STORE_NOTE),
     "C06": dict(
         level="model_checking", design_ref="DESIGN.md section 4 C06",
-        technique="explicit-state BFS over the real storage; per-transition oracle on OK frames, pushes and dumps",
+        technique="explicit-state BFS over the real storage; per-transition oracle on OK frames, pushes and dumps + exhaustive same-connection histories + deviation-bounded schedule exploration (forged copy vs. genuine event, one event on two connections)",
         text="All submission sequences up to the depth bound over a universe of valid, invalid, duplicate, replaceable, deleting, ephemeral, "
              "long-tag and integer-boundary events are executed through the real websocket handler on both backends with a catch-all subscriber; "
              "every transition is checked for: exactly one OK, OK=true implies retrievable/ephemeral+pushed/superseded, valid never refused, "
@@ -25,21 +25,21 @@ CHECKS = {
              "because aionostr's Event constructor (third party) replaces it with the current time"),
     "C08": dict(
         level="model_checking", design_ref="DESIGN.md section 4 C08",
-        technique="explicit-state BFS over the real storage with frame-condition oracle",
+        technique="explicit-state BFS over the real storage with frame-condition oracle + exhaustive one-process histories + deviation-bounded schedule exploration of deletions against concurrent submissions and queries",
         text="All histories up to the depth bound mixing events of two authors with deletions referencing own older/newer, foreign, unknown, "
              "several, upper-case and malformed ids; per transition: removed set is a subset of {referenced and same author} and a superset of "
              "the own older referenced ones, which are then no longer served by REQ ids nor by get_event (/e/<id>).",
         note=STORE_NOTE),
     "C10": dict(
         level="model_checking", design_ref="DESIGN.md section 4 C10",
-        technique="state invariant evaluated on the full keyspace in every state of explicit-state BFS (plus GC and delete_event transitions)",
+        technique="state invariant evaluated on the full keyspace in every state of explicit-state BFS (plus GC and delete_event transitions, fault-interrupted and one-process histories); the LMDB double is bound to the real liblmdb by exhaustive short operation sequences",
         text="The complete keyspace of the LMDB double is parsed after every transition (adds, replacements, deletions, garbage collection, "
              "delete_event) over the universes of C06/C08/C09/C17 and a tag-shape universe; records and index entries must correspond in both "
              "directions, with expected keys computed by an independent encoder.",
         note=STORE_NOTE + "; crash/fault-interrupted histories are covered by C07's check, which evaluates the same invariant"),
     "C01": dict(
         level="model_checking", design_ref="DESIGN.md section 4 C01",
-        technique="exhaustive store x hostile-filter-language table through the real REQ path + statement/code skeleton comparison with a benign twin",
+        technique="exhaustive store x hostile-filter-language and store x well-formed-filter-language tables through the real REQ path (soundness) + statement/code skeleton comparison with a benign twin + deviation-bounded schedule exploration of concurrent queries",
         text="Every filter list of a hostile language (each member of string and non-string alphabets at every filter position, alone, with a "
              "benign condition and in multi-filter REQs) is answered through the real websocket REQ path over a family of stores on both backends: "
              "every returned event must be a stored one, verbatim, matching a permissive NIP-01 reading of some raw filter; the SQL text the engine "
@@ -62,7 +62,7 @@ CHECKS = {
         note=STORE_NOTE + "; configured validator list is the shipped default (is_signed)"),
     "C04": dict(
         level="model_checking", design_ref="DESIGN.md section 4 C04",
-        technique="exhaustive enumeration of Unicode scalar values and typed grammars through every serialisation path, parsed by an independent JSON parser",
+        technique="exhaustive enumeration of Unicode scalar values and typed grammars through every serialisation path, parsed by an independent JSON parser + deviation-bounded schedule exploration of several receivers of one event",
         text="All 1,112,064 Unicode scalar values (thorough) in content, tag value, tag name and subscription id, the tag-element type grammar, the "
              "subscription-id grammar and every frame kind are pushed through live push, stored answer (SQL row / msgpack row -> hand-written "
              "serializer) and HTTP /e/<id>; every frame must parse with the stdlib parser into a NIP-01 shape with the sub id verbatim and the "
@@ -91,7 +91,7 @@ CHECKS = {
         note="real RateLimiter from /repo; perf_counter replaced by the harness clock; web.py's call sites are covered by C13/C19 scenarios"),
     "C05": dict(
         level="model_checking", design_ref="DESIGN.md section 4 C05, section 2.1, Appendix A",
-        technique="stateless deviation-bounded schedule exploration of the real handler on a controlled event loop + exhaustive live-vs-stored table",
+        technique="stateless deviation-bounded schedule exploration of the real handler on a controlled event loop (two base schedules: run-to-completion and lock-step) + exhaustive live-vs-stored table",
         text="Eight fan-out scenarios (two or three connections; subscribe during a notification round, replace/CLOSE/disconnect between accept and "
              "push, duplicate submission, ephemeral kind, stalled subscriber) are executed on the real start_client/storage code under every "
              "schedule with at most 1 (quick) / 2 (thorough) deviations from the default; an interval-semantics oracle judges only surely-open and "
@@ -107,7 +107,7 @@ CHECKS = {
         note=STORE_NOTE + "; atomic commit and recovery of SQLite (WAL) and LMDB themselves are trusted; kills happen at mutation boundaries"),
     "C13": dict(
         level="model_checking", design_ref="DESIGN.md section 4 C13",
-        technique="bounded-exhaustive command sequences against a registry model + deviation-bounded schedule exploration with a stalled sender",
+        technique="bounded-exhaustive command sequences against a registry model + deviation-bounded schedule exploration (two base schedules) with a stalled sender, a single query slot and fan-out races",
         text="All command sequences up to depth 3 (quick) / 4 (thorough) over an 18-letter alphabet on one connection with subscription_limit=2 are "
              "run on the real handler and compared with a protocol model (EOSE/NOTICE, replacement, limit, pushes only to open subscriptions, "
              "registry size); five race scenarios (CLOSE / same-id REQ / disconnect vs. query and sender tasks) are explored under all schedules "
@@ -115,13 +115,13 @@ CHECKS = {
         note=STORE_NOTE),
     "C14": dict(
         level="model_checking", design_ref="DESIGN.md section 4 C14",
-        technique="full-matrix enumeration of role configurations x token roles x actions x delivery paths on the real handler",
+        technique="full-matrix enumeration of role configurations (incl. partial ones) x token roles x actions x delivery paths on the real handler + all ordered identity changes on one connection + all short role-assignment sequences",
         text="Every save-roles x query-roles configuration over {a,r,w}, every token role set obtained through real AUTH handshakes, both actions, "
              "stored and live delivery, three output-validator settings, both backends; plus every sequence of up to three role assignments read back.",
         note=STORE_NOTE),
     "C15": dict(
         level="model_checking", design_ref="DESIGN.md section 4 C15",
-        technique="exhaustive neighbourhood of a valid AUTH payload x pre-identity + bounded-exhaustive attempt sequences on two connections",
+        technique="exhaustive neighbourhood of a valid AUTH payload (fields, tag lists, urls, timestamps incl. sub-second and non-numeric) x pre-identity + bounded-exhaustive attempt sequences on two connections + deviation-bounded schedule exploration of two connections authenticating at once",
         text="51 AUTH payload variants (every field and tag, challenges of other/earlier connections, relay URL variants incl. substrings, timestamps at "
              "and around both bounds, malformed shapes) from pre-identity none and authenticated, with relay_urls as list and as the string default, "
              "and all sequences of <= 3 attempts alternating between two connections; identity is observed only through behaviour.",
@@ -135,14 +135,14 @@ CHECKS = {
         note=STORE_NOTE + "; reference bounds are written from the docstrings, independent of validators.py"),
     "C19": dict(
         level="model_checking", design_ref="DESIGN.md section 4 C19",
-        technique="grammar-exhaustive hostile frames on the real handler (default schedule) + all 1-deviation schedules for a subset, differential against the run without the hostile frame",
+        technique="grammar-exhaustive hostile frames on the real handler (default schedule) + all 1-deviation schedules for a subset, differential against the run without the hostile frame + exhaustive short histories of commands, silences and connection ends under configured rate limits",
         text="Every JSON type at every position of the four commands, of the event object and of the filter object, invalid / huge / deeply nested "
              "texts, embedded between probes, twice, and before a disconnect, with a second well-behaved connection; nothing may escape the handler, "
              "probes must still be answered or the connection be closed without leftovers, and connection 2's transcript must equal the baseline.",
         note=STORE_NOTE),
     "C20": dict(
         level="model_checking", design_ref="DESIGN.md section 4 C20",
-        technique="exhaustive enumeration of stream cut placements (<= k cuts over all pipes) and service orders over in-memory pipes driving the real notifier code",
+        technique="exhaustive enumeration of stream cut placements (<= k cuts over all pipes) and service orders over in-memory pipes driving the real notifier code (clean ends, resets, interleaved senders) + deviation-bounded schedule exploration of two real workers on one database",
         text="The real NotifyServer.handle_notify / NotifyClient.connect run over asyncio.StreamReader pipes whose chunking is chosen by the "
              "enumerator: all placements of <= 2 (quick) / 3 (thorough) cut points over all pipes of five scenarios (coalesced ids, spaced ids, both "
              "directions, three workers, peer leaving mid-stream) x two service orders.",
